@@ -927,3 +927,59 @@ def _bound_dominates(g, fn, cmp_node, op, use, const, x, ln, size):
                     st.append(s)
         return True
     return False
+
+
+def check_dangling(ctx, fn, rule='R-PAIR.dangling', releasers=('gdstk::free_allocation', 'free')):
+    """After `free_allocation(p)` (p a pointer local or parameter) no path reads p again - returns it, passes it on,
+    dereferences it or frees it a second time - without assigning it first (CFG search from the release to the next
+    read of p that avoids every assignment to p). Returns the number of release sites examined."""
+    g = fn.cfg
+    n = 0
+    for c in fn.walk():
+        if c.k != 'CallExpr' or c.callee not in releasers or not c.args:
+            continue
+        a = _strip_casts(c.args[0])
+        if a.k != 'DeclRefExpr' or a.dk not in ('local', 'param') or '*' not in (a.t or ''):
+            continue
+        key = lvalue_key(a)
+        start = g.where_node(c)
+        if start is None:
+            continue
+        n += 1
+
+        def is_lhs(node):
+            p = node.parent
+            cur = node
+            while p is not None and p.k in ('ImplicitCastExpr', 'ParenExpr'):
+                cur, p = p, p.parent
+            return p is not None and is_assign(p) and p.op == '=' and (p.child('lhs') is cur or _strip_casts(p.child('lhs')) is node)
+
+        def reads(b, i, nid):
+            node = fn.nodes.get(nid)
+            if node is None or node.k != 'DeclRefExpr' or lvalue_key(node) != key:
+                return False
+            if any(x is node for x in c.walk()):
+                return False          # the argument of this very release
+            return not is_lhs(node)
+
+        def assigns(b, i, nid):
+            node = fn.nodes.get(nid)
+            if node is None:
+                return False
+            if is_assign(node) and node.op == '=' and lvalue_key(node.child('lhs')) == key:
+                return True
+            if node.k == 'DeclStmt' and any(v is not None and v.k == 'VarDecl' and 'v%d:%s' % (v.d, v.n) == key for v in node.c):
+                return True           # a new instance of a loop-local variable
+            return False
+        path = g.path_avoiding(start, reads, assigns)
+        what = None
+        if path is not None:
+            b, i = path[-1]
+            node = fn.nodes.get(g.blocks[b].e[i]) if 0 <= i < len(g.blocks[b].e) else None
+            use = node
+            while use is not None and use.parent is not None and use.k not in ('ReturnStmt', 'CallExpr', 'CXXMemberCallExpr', 'UnaryOperator', 'ArraySubscriptExpr', 'MemberExpr'):
+                use = use.parent
+            what = 'returned' if use is not None and use.k == 'ReturnStmt' else ('passed to %s' % (use.callee or 'a call') if use is not None and use.k in ('CallExpr', 'CXXMemberCallExpr') else 'read')
+        ctx.check(path is None, rule, '%s/%s@%s' % (fn.qn.replace('gdstk::', ''), pretty_key(key), c.loc()), c.loc(), '`%s` is not read again after it is released' % pretty_key(key),
+                  '`%s` is released here and then %s without having been reassigned (%s): the caller receives / the callee uses a dangling pointer' % (pretty_key(key), what, g.describe_path(path)[-3:] if path else ''))
+    return n
